@@ -356,6 +356,17 @@ func c05Gen(group string, idx int, seed uint64, r *Rng, thorough bool) *c05Case 
 		cs.SleepMs = 10
 		cs.Ops = []c05Op{{Kind: "task", Size: 32, Pad: 8, Gate: true}, {Kind: "pause", Delay: 120},
 			{Kind: "task", Size: 64, Pad: 16}, {Kind: "pause", Delay: 60}, {Kind: "task", Size: 48, Pad: 3}}
+	case "chan-cycle": // channel on, off and on AGAIN (server- or client-side), one task in every phase, no Job
+		// outstanding while the mode is switched (a result in flight during a switch-off is a separate matter)
+		cs.SleepMs = 12 + idx%3*4
+		k := "chanS"
+		if idx%2 == 1 {
+			k = "chanC"
+		}
+		t := func(sz int) c05Op { return c05Op{Kind: "task", Size: sz, Pad: 6 + idx} }
+		p := c05Op{Kind: "pause", Delay: 320}
+		cs.Ops = []c05Op{t(30), p, {Kind: k, On: true}, p, t(40), p, {Kind: k, On: false}, p, t(50), p,
+			{Kind: k, On: true}, p, t(60), p, t(70), p, {Kind: k, On: false}, p, t(80), p, {Kind: k, On: true}, p, t(90)}
 	case "fragedge": // payloads in the band below a multiple of the (lowered) fragment limit, both directions:
 		// the sizes for which the announced fragment count exceeds the number of payload pieces
 		cs.OwnID, cs.NoModel = true, true
@@ -375,6 +386,11 @@ func c05Gen(group string, idx int, seed uint64, r *Rng, thorough bool) *c05Case 
 				cs.Ops = append(cs.Ops, c05Op{Kind: "pause", Delay: 40})
 			}
 		}
+		// long groups: a task (server to client, polling: the client sweeps stale groups on every wake-up)
+		// and a result of 6..9 fragments
+		cs.Ops = append(cs.Ops, c05Op{Kind: "pause", Delay: 200},
+			c05Op{Kind: "task", Size: (6+idx%4)*cs.Frag - 13, Pad: 16}, c05Op{Kind: "pause", Delay: 400},
+			c05Op{Kind: "task", Size: 64, Pad: (7+idx%3)*cs.Frag + 5})
 	case "big": // payloads above the fragment limit (thorough only; the process' own device ID)
 		cs.OwnID, cs.NoModel = true, true
 		cs.SleepMs = 20
@@ -1269,6 +1285,7 @@ func c05Plan(c *Ctx) []c05Job {
 	add("wrapped-chan-burst", c.N(3, 12))
 	add("channel-idle", c.N(8, 60))
 	add("fragedge", c.N(2, 8))
+	add("chan-cycle", c.N(2, 10))
 	if c.Thorough() {
 		add("big", 2)
 	}
@@ -1497,7 +1514,14 @@ func c05Collect(c *Ctx, results []c05Res) {
 				c.Count(k)
 			}
 			for _, f := range m.Fails {
-				c.Fail(f["kind"], f["key"], f["detail"], c05MakeCase(c.Seed, c.Tier, j))
+				key := f["key"]
+				if m.Group == "chan-cycle" || m.Group == "fragedge" {
+					// directed histories built to stay clear of the recorded channel-mode findings (no Job is
+					// outstanding while the mode is switched, no re-key, nothing near the queue capacity): a
+					// failure here is a different violation and gets a key of its own
+					key = "directed:" + m.Group + ":" + key
+				}
+				c.Fail(f["kind"], key, f["detail"], c05MakeCase(c.Seed, c.Tier, j))
 			}
 			c.Eval(m.Nontriv, m.Sig)
 		}
